@@ -74,19 +74,21 @@ theorem C08_schedule_skips (s : State τ) (e : Env) (n : Nat) (t : List Nat)
 /-- **The crashed test is the head of the dead worker's book; the rest is parked for its replacement.** -/
 theorem C08_crash_item (s : State τ) (n i : Nat) (rest : List Nat) (col : List τ) (item : τ)
     (hb : AList.lookup s.node2pending n = some (i :: rest)) (hc : AList.lookup s.node2collection n = some col)
-    (hi : col[i]? = some item) :
+    (hi : col[i]? = some item) (hcomp : s.completed = true) :
     removeNode s n = .ok ({ s with node2pending := s.node2pending.erase n,
                                    removed2pending := if rest.isEmpty then s.removed2pending
                                                       else s.removed2pending.set n rest }, some item) := by
   have hp : s.node2pending.pop n = .ok (i :: rest, s.node2pending.erase n) := AList.pop_eq_ok.2 ⟨hb, rfl⟩
   have hgetc : s.node2collection.get n = .ok col := AList.get_eq_ok.2 hc
   unfold removeNode
-  simp only [hp, Except.bind, hgetc, hi]
+  simp only [hp, Except.bind, hcomp, ↓reduceIte, hgetc, hi]
   cases rest <;> rfl
 
 /-- a node that dies holding nothing leaves nothing behind and no test is reported as crashed -/
 theorem C08_idle_death (s : State τ) (n : Nat) (hb : AList.lookup s.node2pending n = some []) :
-    removeNode s n = .ok ({ s with node2pending := s.node2pending.erase n }, none) := by
+    removeNode s n = .ok ({ s with node2pending := s.node2pending.erase n,
+                                   node2collection := if s.completed then s.node2collection
+                                                      else s.node2collection.erase n }, none) := by
   have hp : s.node2pending.pop n = .ok ([], s.node2pending.erase n) := AList.pop_eq_ok.2 ⟨hb, rfl⟩
   unfold removeNode
   simp only [hp, Except.bind]
